@@ -120,7 +120,7 @@ def prepare(tmp, case):
     return p
 
 
-def run_history(case, p, crash_at=None, on_round=None, wrap=True, after_close=None):
+def run_history(case, p, crash_at=None, on_round=None, wrap=True, after_close=None, before_close=None):
     """Run the history; returns the shared operation record."""
     from quansino.io.core import Observer
     from quansino.mc.gcmc import GrandCanonical
@@ -163,6 +163,8 @@ def run_history(case, p, crash_at=None, on_round=None, wrap=True, after_close=No
             crit.queue = [s.endswith("+")]
             for _ in step:
                 pass
+        if before_close is not None:
+            before_close(mc)
         mc.close()
         if after_close is not None:
             after_close(mc)
@@ -246,12 +248,35 @@ def run_case(case):
                 if not open(p[t]).read().startswith(text):
                     reopened["lost"] = t
 
+        def before_close(mc):
+            # a checkpoint copy: the restart observer is pointed at another file and called once more, with no step in
+            # between; after the call that file holds the current state
+            obs = mc.default_restart
+            if obs is None:
+                return
+            extra = os.path.join(tmp, "checkpoint_copy.out")
+            try:
+                obs.file = extra
+                obs()
+                text = open(extra).read()
+                data = read_json(io.StringIO(text))
+                ok = data.get("attributes", {}).get("step_count") == mc.step_count
+            except Exception as exc:
+                ok, text = False, f"<{type(exc).__name__}: {exc}>"
+            reopened["copy_ok"] = ok
+            reopened["copy_len"] = len(text)
+            reopened["closed"] = True  # the live restart path is no longer written from here on
+
         try:
-            run_history(case, p, on_round=on_round, wrap=False, after_close=after_close)
+            run_history(case, p, on_round=on_round, wrap=False, after_close=after_close, before_close=before_close)
         except Exception as exc:
             return {"labels": labels + ["raised"], "nontrivial": True, "violation": {"kind": f"run-raises:{type(exc).__name__}", "detail": repr(exc)[:300]}}
         evals += len(natoms)
         labels.append("run-after-close:" + reopened.get("outcome", "?"))
+        if reopened.get("copy_ok"):
+            labels.append("checkpoint-copy-written")
+        if reopened.get("copy_ok") is False and not viol:
+            viol.append(("restart:checkpoint-copy", f"the restart observer was pointed at another file and called (no step in between): that file ({reopened.get('copy_len')} bytes) does not hold the current state"))
         if reopened.get("lost") and not viol:
             viol.append(("run-after-close:earlier-bytes-lost", f"run after close() ({reopened.get('outcome')}): the {reopened['lost']} file no longer starts with what had been written before"))
         if 0 in natoms:
